@@ -340,7 +340,14 @@ func (s *setSubj[T]) check(o *Oracle) {
 		for it := setIter(s.s); it.Next(); {
 			itGot = append(itGot, s.d.Str(it.Value()))
 		}
-		setEnum(s.s).Each(func(_ int, v T) { eachGot = append(eachGot, s.d.Str(v)) })
+		reenter := o.cur.ID%3 == 0 // one check in three: the callback reads the set it is enumerating
+		setEnum(s.s).Each(func(_ int, v T) {
+			if reenter {
+				s.s.Values()
+				setEnum(s.s).All(func(int, T) bool { return true })
+			}
+			eachGot = append(eachGot, s.d.Str(v))
+		})
 		if !slices.Equal(itGot, want) {
 			o.Fail("C09", "iterator-order", "after %s: iterator order %v, insertion order %v", o.cur, itGot, want)
 		}
